@@ -625,13 +625,11 @@ def _segments(pattern):
 
 def gen_tables(tier):
     maxrows = 3
-    keycells = KEYCELLS if tier == 'quick' else KEYCELLS + ['c']
     for pattern in PATTERNS:
         segs, names, leaf_wild = _segments(pattern)
         nkeys = len(names) - (1 if leaf_wild else 0)
+        keycells = KEYCELLS + ['c'] if (tier != 'quick' and nkeys <= 2) else KEYCELLS
         keytuples = list(itertools.product(keycells, repeat=nkeys))
-        if tier != 'quick' and nkeys >= 3:
-            keytuples = [kt for kt in keytuples if kt.count('c') <= 1]
         for n in range(0, maxrows + 1):
             for kts in (itertools.combinations(keytuples, n) if (tier == 'quick' and n == 3) else itertools.permutations(keytuples, n)):
                 for leaves in (itertools.product(LEAFCELLS, repeat=n) if leaf_wild else [None]):
@@ -784,6 +782,6 @@ def suites(tier, seed):
               rule='%d patterns with 1..4 wildcards x all tables of 0..3 rows (%s) with pairwise different paths (key cells %s, leaf cells 1/None/x) x base trees '
                    '(none, empty, overlapping rows, unrelated, a leaf where the pattern needs a branch at every depth, a branch where it puts a leaf) x table '
                    'spellings (dictable, list of dicts, a single dict): table_to_tree == merge model, base untouched, tree_to_table and dictable(tree, pattern) '
-                   'return the rows as a multiset; non-trivial = the table overlaps the base tree' % (len(PATTERNS), 'every row order; 3-row tables in one order' if quick else 'every row order', 'a/b' if quick else 'a/b/c (<= one c with 3+ key columns)'),
+                   'return the rows as a multiset; non-trivial = the table overlaps the base tree' % (len(PATTERNS), 'every row order; 3-row tables in one order' if quick else 'every row order', 'a/b' if quick else 'a/b/c for <= 2 key columns, a/b for more'),
               bounds=dict(patterns=len(PATTERNS), max_rows=3, key_cells=2 if quick else 3, leaf_cells=3)),
     ]
